@@ -62,3 +62,47 @@ Ltac agree_auto := intros; repeat (tie_case; cbv beta iota zeta); first [left; r
 Definition err_value (o : outcome unit) : outcome Z :=
   match o with Ok _ => Ok 0 | Err c => Ok c | Panic => Panic end.
 
+
+(* ---------------- size facts about int64 / 256-bit / 315-bit values ---------------- *)
+Lemma two63_lt_two256 : 9223372036854775808 < two256. Proof. vm_compute. reflexivity. Qed.
+Lemma int64_dec_sum_lt : (9223372036854775808 * P18) + (9223372036854775808 * P18) < two315.
+Proof. vm_compute. reflexivity. Qed.
+
+Lemma int64_c_some : forall x y,
+  int64_c x = Some y -> y = x /\ -9223372036854775808 <= x <= 9223372036854775807.
+Proof. unfold int64_c; intros x y H. destruct (_ && _) eqn:E; inversion H; subst. split; [reflexivity|lia]. Qed.
+
+(* an Int that does not fit 256 bits is not an int64 either: Int.Add's overflow panic and the
+   Int64() panic the model has are the same observable (the call panics) *)
+Lemma not_fits_int_int64 : forall x, fits_int x = false -> int64_c x = None.
+Proof.
+  unfold fits_int, int64_c; intros x H. pose proof two63_lt_two256.
+  destruct (_ && _) eqn:E; [|reflexivity]. exfalso. lia.
+Qed.
+
+(* NewDec(int64).Add(NewDec(int64)) cannot exceed 315 bits *)
+Lemma int64_dec_add_fits : forall a b,
+  -9223372036854775808 <= a <= 9223372036854775807 -> -9223372036854775808 <= b <= 9223372036854775807 ->
+  fits_dec (dec_of_int a + dec_of_int b) = true.
+Proof.
+  intros a b Ha Hb. unfold fits_dec, dec_of_int. pose proof int64_dec_sum_lt as K.
+  assert (0 < P18) by (vm_compute; reflexivity).
+  apply Z.ltb_lt. nia.
+Qed.
+
+(* (value, nil) *)
+Definition pair0 (o : option Z) : option (Z * Z) := option_map (fun v => (v, 0)) o.
+
+Lemma dec_of_int_eq0 : forall x, (dec_of_int x =? 0) = (x =? 0).
+Proof.
+  intros. unfold dec_of_int. assert (0 < P18) by (vm_compute; reflexivity).
+  destruct (x =? 0) eqn:E.
+  - apply Z.eqb_eq in E. subst. reflexivity.
+  - apply Z.eqb_neq in E. apply Z.eqb_neq. nia.
+Qed.
+
+Lemma int64_fits_int : forall x, int64_c x = Some x -> fits_int x = true.
+Proof.
+  intros x H. destruct (fits_int x) eqn:E; [reflexivity|].
+  rewrite (not_fits_int_int64 _ E) in H. discriminate.
+Qed.
